@@ -4,10 +4,12 @@ import (
 	"context"
 	"fmt"
 	"os"
+	"path/filepath"
 	"sort"
 	"strings"
 	"sync"
 	"sync/atomic"
+	"syscall"
 	"time"
 
 	"github.com/prometheus/client_golang/prometheus"
@@ -71,6 +73,14 @@ func init() {
 				c.TimeoutMS = 60000
 				cs = append(cs, c)
 			}
+			// the file trigger's builder as the command line uses it: made first, asked for the trigger later; the file given
+			// as a regular file or as a named pipe
+			for i := 0; i < 4; i++ {
+				c := core.MkCase("C15", "builder", i, seed, map[string]int{"fifo": i % 2, "late": i / 2})
+				c.Solo = true
+				c.TimeoutMS = 60000
+				cs = append(cs, c)
+			}
 			// two shapes on purpose: a plan cut inside a stage whose successor has the same (inherited) parameters; a users
 			// stage with more users than limits.concurrency followed by a rate stage that asks for more than it can run
 			nsh := 2
@@ -86,7 +96,7 @@ func init() {
 			}
 			return cs
 		},
-		Kinds:  map[string]core.RunFunc{"parse": c15Parse, "run": c15RunPlan},
+		Kinds:  map[string]core.RunFunc{"parse": c15Parse, "run": c15RunPlan, "builder": c15Builder},
 		Floors: map[string]int64{"plans": 3000, "plans_with_dropped_stage": 500, "boundary_instants": 300, "run_stage_evaluations": 100, "run_env_reads_in_bodies": 100},
 	})
 }
@@ -264,6 +274,9 @@ func c15Parse(c *core.Case, o *core.Outcome) {
 				}
 			}
 			switch {
+			case r.IntN(8) == 0:
+				// the stage says it has no parameters (an explicitly empty map): nothing is inherited
+				st.params, st.paramsAt = map[string]string{}, "stage-empty"
 			case r.IntN(2) == 0:
 				st.params = map[string]string{"VSTAGE": fmt.Sprint(k), "SHARED": fmt.Sprintf("s%d", k)}
 				st.paramsAt = "stage"
@@ -386,6 +399,9 @@ func c15Parse(c *core.Case, o *core.Outcome) {
 			}
 			if st.mode == "users" && st.concAt == "stage" {
 				line(fmt.Sprintf("concurrency: %d", st.conc))
+			}
+			if st.paramsAt == "stage-empty" {
+				line("parameters: {}")
 			}
 			if st.paramsAt == "stage" {
 				line("parameters:")
@@ -909,4 +925,90 @@ func c15RunPlan(c *core.Case, o *core.Outcome) {
 		return false
 	}())
 	o.Sample = map[string]any{"yaml": y.String(), "rate_evaluations": evals.Load(), "body_reads": bodyReads.Load(), "stages_seen_in_bodies": len(seenInBodies)}
+}
+
+// c15Builder: file.Rate(output) is made at T0; the config (stage-start 1.8 s before T0, a first stage of 2 s, a second of
+// 5 s) reaches it through a regular file or a named pipe; New is called at once or 450 ms later. The trigger it returns is
+// the one ParseConfigFile gives for the same bytes at that moment: stages already over by then are not in it, the limits
+// are the file's.
+func c15Builder(c *core.Case, o *core.Outcome) {
+	var pp map[string]int
+	c.Params(&pp)
+	l := engine.NewLog()
+	b := file.Rate(engine.NewOutput(l, false))
+	t0 := time.Now()
+	y := fmt.Sprintf("scenario: verifScenario\nlimits:\n  max-duration: 1m\n  concurrency: 3\n  max-iterations: 77\n  ignore-dropped: true\nschedule:\n  stage-start: %s\ndefault:\n  distribution: none\n  jitter: 0\nstages:\n- duration: 2s\n  mode: constant\n  rate: 11/s\n- duration: 5s\n  mode: constant\n  rate: 22/s\n",
+		t0.Add(-1800*time.Millisecond).UTC().Format(time.RFC3339Nano))
+	dir := os.Getenv("TMPDIR")
+	if dir == "" {
+		dir = os.TempDir()
+	}
+	path := filepath.Join(dir, fmt.Sprintf("c15-builder-%d-%d", os.Getpid(), c.Seed%1000))
+	desc := fmt.Sprintf("named pipe=%v, New called %d ms after the builder was made", pp["fifo"] == 1, 450*pp["late"])
+	if pp["fifo"] == 1 {
+		if err := syscall.Mkfifo(path, 0o600); err != nil {
+			o.Inconc("cannot make a named pipe: %v", err)
+			return
+		}
+		go func() {
+			// the writer end: two chunks, as a shell's process substitution would deliver them
+			f, err := os.OpenFile(path, os.O_WRONLY, 0)
+			if err != nil {
+				return
+			}
+			defer f.Close()
+			_, _ = f.WriteString(y[:len(y)/2])
+			time.Sleep(20 * time.Millisecond)
+			_, _ = f.WriteString(y[len(y)/2:])
+		}()
+	} else if err := os.WriteFile(path, []byte(y), 0o600); err != nil {
+		o.Inconc("cannot write the config: %v", err)
+		return
+	}
+	defer os.Remove(path)
+	if pp["late"] == 1 {
+		time.Sleep(450 * time.Millisecond)
+	}
+	if err := b.Flags.Parse([]string{path}); err != nil {
+		o.Inconc("harness: %v", err)
+		return
+	}
+	type res struct {
+		t   *api.Trigger
+		err error
+	}
+	ch := make(chan res, 1)
+	go func() { t, err := b.New(b.Flags); ch <- res{t, err} }()
+	var got res
+	select {
+	case got = <-ch:
+	case <-time.After(20 * time.Second):
+		o.Violate("builder-hang:"+desc, "the builder did not return within 20 s (%s)", desc)
+		return
+	}
+	ref, rerr := file.ParseConfigFile([]byte(y), time.Now())
+	if rerr != nil {
+		o.Inconc("harness: reference parse failed: %v", rerr)
+		return
+	}
+	if got.err != nil || got.t == nil {
+		o.Violate("builder-rejected:"+desc, "a config that ParseConfigFile accepts was rejected when given to the file trigger's builder: %v (%s)", got.err, desc)
+		return
+	}
+	wantStages := 2 - pp["late"]
+	if len(ref.Stages) != wantStages {
+		o.Inconc("the reference parse kept %d stages, expected %d (machine too slow?) (%s)", len(ref.Stages), wantStages, desc)
+		return
+	}
+	if want := fmt.Sprintf("%d different stages", wantStages); got.t.Description != want {
+		o.Violate("builder-stages:"+desc, "the trigger is described as %q, the plan has %s at the moment New was called (the first stage ended 200 ms after the builder was made) (%s)", got.t.Description, want, desc)
+		return
+	}
+	if got.t.Options.Scenario != "verifScenario" || got.t.Options.Concurrency != 3 || got.t.Options.MaxIterations != 77 || got.t.Options.MaxDuration != time.Minute || !got.t.Options.IgnoreDropped {
+		o.Violate("builder-limits:"+desc, "the trigger's options %+v are not the file's limits (%s)", got.t.Options, desc)
+		return
+	}
+	o.Events += 1
+	o.AddObs("builder_cases", 1)
+	o.Sig("builder:fifo=%d:late=%d", pp["fifo"], pp["late"])
 }
